@@ -1,6 +1,6 @@
 # Per-property configuration of the checks (scenario names, budgets, probes that evidence must list).
 CHECKS = {
-    "C01": {"scenarios": ["c01", "c01b", "c01c"], "quick_budget_s": 60, "thorough_budget_s": 900,
+    "C01": {"scenarios": ["c01", "c01b", "c01c", "c01d"], "quick_budget_s": 60, "thorough_budget_s": 900,
             "real": ["src/tbb scheduler: arena, arena_slot, mailbox, task_stream, task_dispatcher, threading_control, market, private_server (RML), task_group, parallel_for, partitioners"]},
     "C09": {"scenarios": ["c09"], "quick_budget_s": 45, "thorough_budget_s": 600,
             "real": ["include/oneapi/tbb/concurrent_queue.h, detail/_concurrent_queue_base.h, src/tbb/concurrent_bounded_queue.cpp, concurrent_monitor"]},
